@@ -78,7 +78,7 @@ class Hist:
     def gen(self, rng: random.Random, prop, tier, run_index):
         t = self.tier(prop, tier)
         cfg = {
-            'alphabet': weighted_choice(rng, [('plain', 5), ('digits', 3), ('keyword', 1), ('at', 1), ('long', 1)]),
+            'alphabet': weighted_choice(rng, [('plain', 5), ('digits', 3), ('keyword', 1), ('at', 1), ('long', 1), ('lookalike', 1)]),
             'max_arity': rng.choice((2, 2, 3, 4, 4, 9)),
             'max_inputs': rng.choice((2, 3, 4, 5, 6)),
             'uuid_order': rng.choice(('asc', 'desc', 'interleave', 'random')),
@@ -1274,6 +1274,15 @@ class Hist:
             if equivalent:
                 return  # a rewrite went wrong on the model side: do not use this case
             equivalent = same
+        if rng.random() < 0.06:
+            # the replacement circuit has one more input that nobody reads and that the correspondence does not mention
+            # (a synthesiser that keeps the full input list of a wider cut): to be refused - or, if the call returns
+            # normally, the circuit must keep its inputs and its function
+            idle = self.fresh_label(rng, net, taken)
+            taken.add(idle)
+            sub.gates[idle] = ('INPUT', ())
+            sub.inputs.append(idle)
+            self.res.stats.probes.bump('replace_subcircuit-replacement-with-unmapped-idle-input')
         try:
             sub_real = observe.build_real(self.Circuit, self.GT, sub)
         except Exception:
